@@ -79,6 +79,17 @@ mod c04p {
             return json!({"specimens": true, "seed": seed});
         }
         let mut rng = rng::Rng::keyed(seed, "C04P", k);
+        if k == 1 || (tier == Tier::Thorough && k % 300 == 1) {
+            // a manifest of more than 255 packs (the manifest checksum masks part of every pack info: counts beyond one byte)
+            let mut case = cont::gen_small(&mut rng, tier, c01::Pkg::OneFile, 0, 3);
+            for _ in 1..*rng.pick(&[256usize, 257, 300]) {
+                let items = vec![content::Item { len: rng.range(1, 40) as usize, ent: content::Ent::High, hint: content::Hint::No, src: content::Src::Mem, dup_of: None, cat_of: None }];
+                case.extra.push(content::ContentCase { seed: rng.next(), comp: content::Comp::None, cached: false, items });
+            }
+            let mut v = case.to_json();
+            v["many"] = json!(true);
+            return v;
+        }
         let pkg = [c01::Pkg::OneFile, c01::Pkg::TwoFiles, c01::Pkg::NoConcat][(k % 3) as usize];
         cont::gen_small(&mut rng, tier, pkg, (k % 4 == 3) as usize, 8).to_json()
     }
@@ -101,7 +112,19 @@ mod c04p {
         out.nontrivial = true;
         out.obs.inc(&format!("pristine.pkg.{}", case.pkg.as_str()));
         out.obs.inc(&format!("pristine.comp.{}", case.content.comp.name()));
-        match util::catch(|| cont::create_container(&case, &scratch.dir, "c.jbk", std::sync::Arc::new(()))) {
+        let many = jbool(desc, "many");
+        if many {
+            out.obs.max("packs_in_one_pristine_container", 2 + case.extra.len() as u64);
+        }
+        let made = util::catch(|| {
+            if many {
+                // loose files first would leave hundreds of files to check one by one: joined into one file
+                cont::create_loose(&case, &scratch.dir, &|_, f| f.to_string(), Some("c.jbk"))
+            } else {
+                cont::create_container(&case, &scratch.dir, "c.jbk", std::sync::Arc::new(()))
+            }
+        });
+        match made {
             Ok(Ok(created)) => {
                 let mut plan = dump::plan_for(&case, Some(&created));
                 plan.indexes.clear();
